@@ -167,6 +167,10 @@ def coq_term(case, out):
         ps = "[" + "; ".join(qlist([bf(b) for b in st["momenta"][r * d:(r + 1) * d]]) for r in rs) + "]"
         lnus = qlist([bf(st["ln_u"][r]) for r in rs])
         parts.append("hmc_step_eval_q %s %s %s %s %s %s %s" % (qt[0], qt[1], dy(bf(case["eps"])), C.natlit(case["L"]), xs, ps, lnus))
+    if "draw_events" in out:
+        st0 = out["steps"][0]
+        parts.append("hmc_draws_eval %s %s %s %s" % (C.natlit(st0["n_chains"]), C.natlit(st0["dim"]), C.natlit(len(out["steps"])),
+                                                     C.zlist(out["draw_events"])))
     return " ++ ".join("(%s)" % q for q in parts)
 
 
@@ -244,6 +248,21 @@ def compare(case, out, model):
                 if abs(Fraction(got[j]) - row[j]) > tol * scale * 4:
                     return ("step %d row %d coord %d: position after the step %.9g, exact hmc_step gives %.9g (ln u = %.6g, "
                             "H(x,p)-H(x',p') = %.6g)" % (si, r, j, got[j], float(row[j]), float(lnu), float(dH)))
+    # draw discipline: the momenta and uniforms of every step are the model's selection from the replayed stream
+    if "draw_events" in out:
+        for si, st in enumerate(out["steps"]):
+            n, d = st["n_chains"], st["dim"]
+            mom, uni = model[pos:pos + n * d], model[pos + n * d:pos + n * d + n]
+            pos += n * d + n
+            if st["momenta"] != mom:
+                k = [i for i in range(n * d) if st["momenta"][i] != mom[i]][0]
+                return ("step %d: momentum of chain %d, coordinate %d is %r, but draw number %d of the sampler's seeded generator "
+                        "(n*d standard normals then n uniforms per step) is %r" % (si, k // d, k % d, bf(st["momenta"][k]),
+                                                                                 si * (n * d + n) + k, bf(mom[k])))
+            if st["uniform"] != uni:
+                k = [i for i in range(n) if st["uniform"][i] != uni[i]][0]
+                return "step %d: acceptance uniform of chain %d is %r, the seeded generator's draw at that place is %r" % (
+                    si, k, bf(st["uniform"][k]), bf(uni[k]))
     if pos != len(model):
         return "internal: %d model numbers, %d consumed" % (len(model), pos)
     return None
